@@ -300,6 +300,8 @@ class LogOps(RealOps):
             at = _rv(a)
         else:
             at = z3.ToReal(a) if z3.is_int(a) else a
+            if z3.is_app_of(at, z3.Z3_OP_UMINUS):
+                return self.fmul(Frac(1, (), (EXP(at.arg(0)),)), P)      # e^(-t) = 1/e^t  (e^t > 0)
         return self.fmul(Frac(1, (EXP(at),)), P)
 
     # ------------------------------------------------------------ arithmetic
@@ -371,6 +373,9 @@ class LogOps(RealOps):
             return None
         if x is y:
             return bool(op(0, 0))
+        if _posinf(x) or _posinf(y):
+            # Frac / LogVal elements are finite or -inf: compare with +inf by order alone
+            return bool(op(1, 1)) if (_posinf(x) and _posinf(y)) else bool(op(1, 0) if _posinf(x) else op(0, 1))
         if isL(x) or isL(y):
             if _neginf(x) or _neginf(y) or (_same_plain(self.toL(x).a, self.toL(y).a)):
                 x, y = self.toL(x), self.toL(y)
@@ -549,6 +554,7 @@ class LogInterp(Interp):
         self.o = LogOps(self)
         self.mode = "log"
         self.side_conditions = []
+        self.logaddexp_calls = 0
 
     # inputs ----------------------------------------------------------------
     def logsym(self, name, shape):
@@ -574,8 +580,19 @@ class LogInterp(Interp):
         return emap(self.o.lower, np.asarray(a, dtype=object) if not isinstance(a, np.ndarray) else a)
 
     # primitives that need the domain ----------------------------------------
+    @staticmethod
+    def _custom_name(e):
+        """name of the function a custom_jvp_call wraps (JAX keeps it in the debug info of the call jaxpr)"""
+        if e.params.get("name"):
+            return e.params["name"]
+        cj = e.params.get("call_jaxpr")
+        di = getattr(getattr(cj, "jaxpr", cj), "debug_info", None)
+        s = getattr(di, "func_name", None) or str(getattr(di, "func_src_info", "") or "")
+        return s.split(" ")[0] if s else ""
+
     def p_custom_jvp_call(self, e, *ins):
-        if e.params.get("name") == "logaddexp" and len(ins) == 2:
+        if self._custom_name(e) == "logaddexp" and len(ins) == 2:
+            self.logaddexp_calls += 1
             return emap(self.o.logaddexp, ins[0], ins[1])
         return super().p_custom_jvp_call(e, *ins)
 
@@ -614,4 +631,7 @@ def log_exp_inverse_axioms(formulas):
     for l in logs:
         for x in exps:
             out.append(z3.Implies(l.arg(0) == x, l == x.arg(0)))
+    for i in range(len(exps)):
+        for j in range(i + 1, len(exps)):
+            out.append(z3.Implies(exps[i].arg(0) + exps[j].arg(0) == 0, exps[i] * exps[j] == 1))     # e^a * e^-a = 1
     return out
